@@ -1,18 +1,58 @@
 #!/usr/bin/env python3
-"""replay_one.py <replay file>: re-run the failing case of a VIOLATION line on the current tree."""
-import json, sys, os, subprocess
+"""replay_one.py <replay file>: re-run the failing case of a VIOLATION line on the current tree.
+Exit 1 if the case still fails, 0 if it passes now, 2 if this kind of record can only be shown."""
+import json, sys, os, subprocess, shutil
 sys.path.insert(0, os.path.dirname(os.path.abspath(__file__)))
 import vlib
-vlib.build_harness()
 rec = json.load(open(sys.argv[1]))
 r = rec.get('record', {})
-print('property', rec.get('property'), '--', rec.get('what', '')[:400])
+print('property', rec.get('property'), '--', rec.get('what', '')[:600])
 vec = r.get('vec')
-if vec:
+if vec and 'prog' in vec and 'expect' in vec and vec.get('mode') != 'tailrec':
+    # a TLC-generated vector: replay it on the library
+    vlib.build_harness()
     p = os.path.join(vlib.WORK, 'replay-one.ndjson')
     open(p, 'w').write(json.dumps(vec) + '\n')
     out = p + '.out'
     subprocess.run([vlib.HARNESS, 'replay', p, out, '1'])
     print(open(out).read()[:2000])
     sys.exit(1 if '"ok":false' in open(out).read() else 0)
-print(json.dumps(r)[:2000])
+if vec and vec.get('mode') == 'tailrec':
+    # a tail-recursion measurement
+    vlib.build_harness()
+    p = os.path.join(vlib.WORK, 'replay-one.ndjson')
+    open(p, 'w').write(json.dumps(vec) + '\n')
+    out = p + '.out'
+    os.environ['HARNESS_TIMEOUT'] = '600'
+    subprocess.run([vlib.HARNESS, 'replay', p, out, '1'])
+    res = open(out).read()
+    print(res[:2000])
+    j = json.loads(res.splitlines()[0])
+    bad = not j.get('ok') or (vec.get('heap') and j['m'][1]['peak'] - j['m'][0]['peak'] > 65536)
+    sys.exit(1 if bad else 0)
+if 'case' in r and 'run' in r and 'probes' in r.get('case', {}):
+    # a module case: lay it out in real directories and run every probe
+    import modules
+    jaq = vlib.build_jaq_hooked()
+    root = os.path.join(vlib.WORK, 'replay-one-modtree')
+    bad = modules.check_case(r['case'], root, jaq)
+    for b in bad:
+        print('STILL FAILS:', b['what'][:400])
+    print('files are under', root)
+    sys.exit(1 if bad else 0)
+if 'case' in r and 'text' in r.get('case', {}):
+    # a case of the sys driver (totality / system calls): run it alone
+    vlib.build_harness()
+    d = os.path.join(vlib.WORK, 'replay-one-sys')
+    shutil.rmtree(d, ignore_errors=True)
+    os.makedirs(d)
+    cp, op = os.path.join(d, 'cases.ndjson'), os.path.join(d, 'out.ndjson')
+    open(cp, 'w').write(json.dumps(r['case']) + '\n')
+    p = subprocess.run([vlib.HARNESS, 'sys', 'run', cp, op, '0', 'lazy'], cwd=d, stdout=subprocess.PIPE, stderr=subprocess.PIPE, text=True)
+    out = open(op).read() if os.path.exists(op) else ''
+    print(out[:1000] or f'the process died: status {p.returncode}: {p.stderr[-500:]}')
+    ok = out and json.loads(out.splitlines()[0])['end'] not in ('panic',)
+    print('(system-call violations are only visible under the tracer: python3 tools/vcheck.py C06 quick)')
+    sys.exit(0 if ok else 1)
+print(json.dumps(r)[:3000])
+sys.exit(2)
